@@ -134,6 +134,8 @@ const CALL: u32 = 2000;
 
 /// run one scenario under one baton schedule
 pub fn run_scen(s: &Scen, seed: u64, strategy: Strategy) -> Outcome {
+  let strategy_dbg = strategy.clone();
+  let _ = &strategy_dbg;
   crate::vtime::reset();
   let log = Log::new();
   let pool = Pool::new();
@@ -629,7 +631,7 @@ pub fn campaign(
     let strategy = strategy_for(&mut r);
     let seed = r.next();
     rep.evaluations += 1;
-    let o = run_scen(&s, seed, strategy);
+    let o = run_scen(&s, seed, strategy.clone());
     rep.count("thread_schedules", 1);
     rep.count("thread_context_switches", o.baton.switches);
     rep.count("thread_scheduling_points", o.baton.points);
@@ -743,7 +745,7 @@ pub fn task_campaign(cfg: &Cfg, rep: &mut Report, n: usize) {
       }));
     }
     rep.evaluations += 1;
-    let b = conc::baton_run(seed, strategy, bodies);
+    let b = conc::baton_run(seed, strategy.clone(), bodies);
     let evs = log.evs();
     rep.count("thread_schedules", 1);
     rep.count("thread_context_switches", b.switches);
@@ -926,4 +928,69 @@ pub fn miri_main(cfg: &Cfg) {
     results.push(json!({"scenario": s.name, "events": o.evs.len(), "violation": v.map(|(k, d)| json!({"kind": k, "detail": d}))}));
   }
   println!("MIRI-RESULT {}", serde_json::to_string(&results).unwrap());
+}
+
+
+// ---------------------------------------------------------------------------
+// systematic exploration: every schedule with at most `bound` preemptions
+// ---------------------------------------------------------------------------
+
+/// Enumerates, for one scenario, all baton schedules in which the running
+/// thread is preempted at most `bound` times (forced switches when a thread
+/// blocks or finishes are free). Returns (schedules run, distinct traces).
+pub fn systematic(
+  cfg: &Cfg,
+  rep: &mut Report,
+  id_prefix: &str,
+  s: &Scen,
+  bound: usize,
+  cap: usize,
+  oracle: &dyn Fn(&Outcome, &Scen) -> Option<(String, serde_json::Value)>,
+) -> (usize, usize) {
+  let n = s.threads.len() + s.workers;
+  let mut seen: std::collections::HashSet<Vec<u8>> = Default::default();
+  let mut stack: Vec<Vec<(u64, usize)>> = vec![vec![]];
+  let mut runs = 0;
+  while let Some(prefix) = stack.pop() {
+    if runs >= cap {
+      rep.count("systematic_scenarios_capped", 1);
+      break;
+    }
+    let o = run_scen(s, 0, Strategy::Fixed(prefix.clone()));
+    runs += 1;
+    rep.evaluations += 1;
+    rep.events += o.evs.len() as u64;
+    rep.count("systematic_schedules", 1);
+    if o.baton.timed_out || o.baton.livelock {
+      rep.inconclusive.push(format!("{}: systematic schedule abandoned ({:?})", id_prefix, prefix));
+      continue;
+    }
+    let fresh = seen.insert(o.baton.trace.clone());
+    if fresh {
+      rep.distinct("distinct_thread_schedules", hash64(&(s, &o.baton.trace)));
+      if o.baton.switches > 0 {
+        rep.nontrivial.insert(hash64(&(s, &o.baton.trace)));
+      }
+      if let Some((kind, detail)) = universal(&o).or_else(|| oracle(&o, s)) {
+        let id = format!("{}:{}", id_prefix, prefix.iter().map(|(p, t)| format!("{}@{}", t, p)).collect::<Vec<_>>().join(","));
+        if cfg.wants(&id) || cfg.only_case.is_none() {
+          rep.violation(&kind, s.name, &id, json!({"scenario": format!("{:?}", s), "preemptions": format!("{:?}", prefix),
+            "schedule": o.baton.trace.iter().map(|t| t.to_string()).collect::<Vec<_>>().join(""), "result": detail,
+            "log": o.evs.iter().filter(|e| e.id < 3000).take(80).map(|e| format!("t{}#{}:{}:{:?}", e.thread, e.seq, e.id, e.k)).collect::<Vec<_>>()}));
+        }
+      }
+    }
+    if prefix.len() < bound && o.baton.deadlock.is_none() {
+      let from = prefix.last().map_or(0, |(p, _)| *p);
+      // extend with one more preemption at any later point of THIS schedule
+      for p in (from + 1)..=o.baton.points {
+        for t in 0..n {
+          let mut next = prefix.clone();
+          next.push((p, t));
+          stack.push(next);
+        }
+      }
+    }
+  }
+  (runs, seen.len())
 }
